@@ -44,3 +44,46 @@ PLANS['C02'] = {
     'note': 'trusted: harness generators and oracle; strings restricted to XML 1.0 Char; NaN compared as a class',
     'technique': 'runtime round-trip oracle over generated DOMs (statement-derived expected dump vs decoded dump)',
 }
+
+
+def _monitor_pool(module, paths):
+    """Run lib/monitors/<module>.run over each case log in a process pool."""
+    import concurrent.futures as cf, importlib
+    sys_path = os.path.join(core.VERIF, 'lib')
+    import sys
+    if sys_path not in sys.path:
+        sys.path.insert(0, sys_path)
+    mod = importlib.import_module('monitors.' + module)
+    with cf.ProcessPoolExecutor(max_workers=min(core.NCPU, len(paths))) as ex:
+        return list(ex.map(mod.run, paths))
+
+
+def _c03(m, tier, seed, rundir, extra):
+    count = int(extra.get('count', 1600 if tier == 'quick' else 60000))
+    res = core.run_sharded('c01', ['--seed', seed, '--count', count], SH, rundir,
+                           per_shard_args=lambda i: ['--caselog', os.path.join(rundir, f'cases-{i}.jsonl')])
+    bad = [r for r in res if r[1] is None]
+    for rc, summ, err in bad:
+        m.inconclusive.append(f'c01 producer exited {rc}: {err[-300:]}')
+    paths = [os.path.join(rundir, f'cases-{i}.jsonl') for i in range(SH) if os.path.exists(os.path.join(rundir, f'cases-{i}.jsonl'))]
+    for s in _monitor_pool('c03', paths):
+        m.add_summary(s)
+    for p in paths:
+        os.remove(p)
+
+
+PLANS['C03'] = {
+    'level': 'exploration',
+    'rule': ('every file written by rbx_binary for the C01 workload (generated DOMs x {lz4,none,zstd}) is decoded by refbin.py, an independent decoder '
+             'written from docs/binary.md, which enforces the framing rules; the monitor then checks PROP consumption, PRNT order and uniqueness, SSTR '
+             'uniqueness, END, and compares every decoded wire value (by serialized name and wire type from an independent database walk) with the '
+             'statement-derived expectation; non-trivial = file with >=2 instances; distinct = sha1 of the file'),
+    'floor': {'quick': 2000, 'thorough': 50000},
+    'assumptions': ['refbin.py/refattr.py (Python, from the documents, validated on 4 Studio-written files and the documents\' worked examples)',
+                    'spec errata E1 (UniqueId layout) and E2 (Content SourceTypes) resolved as recorded in DESIGN.md 2.4; files needing E2 are counted in coverage.observed'],
+    'run': _c03,
+    'claim': ('held on N files: each was accepted by an independent spec decoder and meant exactly the DOM that was written (classes, hierarchy, every value by wire type), '
+              'with the structural rules of the statement checked from the decoded structure only. Catches symmetric writer+reader mistakes C01 cannot see.'),
+    'note': 'trusted: the Python reference codecs and the errata resolutions; the C01 generators for reach',
+    'technique': 'offline monitor: independent spec decoder over recorded serializer outputs',
+}
